@@ -441,9 +441,20 @@ where
     LM: MatchLiteral,
     <T as FromStr>::Err: Debug,
 {
+    // Applying a commutative operator between two literals early must not be visible. Hence,
+    // the operator to its left is applied later anyway or is the same operator.
+    let is_regroupable = |bin_op_idx: usize| {
+        bin_op_idx == 0 || {
+            let (left, op) = (&bin_ops[bin_op_idx - 1], &bin_ops[bin_op_idx]);
+            left.op.prio < op.op.prio || (left.op.prio == op.op.prio && left.idx == op.idx)
+        }
+    };
     let prio_increase =
         |bin_op_node_idx: usize| match (&nodes[bin_op_node_idx], &nodes[bin_op_node_idx + 1]) {
-            (DeepNode::Num(_), DeepNode::Num(_)) if bin_ops[bin_op_node_idx].op.is_commutative => {
+            (DeepNode::Num(_), DeepNode::Num(_))
+                if bin_ops[bin_op_node_idx].op.is_commutative
+                    && is_regroupable(bin_op_node_idx) =>
+            {
                 let prio_inc = 5;
                 &bin_ops[bin_op_node_idx].op.prio * 10 + prio_inc
             }
